@@ -22,7 +22,7 @@ pub struct RecSpec {
     pub rdata: Option<usize>,
 }
 
-pub const TYPES: [RecordType; 8] = [RecordType::A, RecordType::TXT, RecordType::CNAME, RecordType::NS, RecordType::SOA, RecordType::MX, RecordType::ANY, RecordType::AXFR];
+pub const TYPES: [RecordType; 9] = [RecordType::A, RecordType::TXT, RecordType::CNAME, RecordType::NS, RecordType::SOA, RecordType::MX, RecordType::ANY, RecordType::AXFR, RecordType::NULL];
 
 /// lower-cased owner name in presentation form
 pub type Key = (String, u16);
